@@ -70,9 +70,10 @@ def verifier_accepts(kind, name, sig, warm=None):
     elif kind == 'rsa':
         a = kv.verify_rsa(crypto.RSA.import_key(crypto.make_key('rsa', 'k')), sig)
         chk = kv.RsaChecker.from_key(env.KEY_NAME, crypto.make_key('rsa', 'k'))
-    elif kind == 'ecdsa':
-        a = kv.verify_ecdsa(crypto.ECC.import_key(crypto.make_key('ecc', 'k')), sig)
-        chk = kv.EccChecker.from_key(env.KEY_NAME, crypto.make_key('ecc', 'k'))
+    elif kind in env.ECDSA_CURVES:
+        kb = crypto.make_key('ecc', 'k', env.ECDSA_CURVES[kind])
+        a = kv.verify_ecdsa(crypto.ECC.import_key(kb), sig)
+        chk = kv.EccChecker.from_key(env.KEY_NAME, kb)
     elif kind == 'ed25519':
         a = kv.verify_ed25519(crypto.ECC.import_key(crypto.make_key('ed', 'k')), sig)
         chk = kv.Ed25519Checker.from_key(env.KEY_NAME, crypto.make_key('ed', 'k'))
@@ -500,6 +501,12 @@ def cases(tier, seed):
                                {'weight': 10}))
     for kind in ('rsa', 'ed25519', 'hmac'):
         cs.append(('sigzero', {'signer': kind}, {'weight': 20}))
+    # every EC key size (the announced signature type stays SignatureSha256WithEcdsa: signer and verifier must agree on
+    # SHA-256 whatever the curve)
+    for kind, rmin in (('ecdsa224', 60), ('ecdsa384', 100), ('ecdsa521', 136)):
+        cs.append(('cover_data', {'pkt': 'data', 'signer': kind, 'payload': 1, 'shape': [[1, 1]], 'rmin': rmin}, {'weight': 10}))
+        cs.append(('cover_interest', {'pkt': 'interest', 'signer': kind, 'payload': 1, 'shape': [[1, 1]],
+                                      'digest_pos': None, 'rmin': rmin}, {'weight': 10}))
     for kind in KINDS:
         for pkt in ('data', 'interest'):
             if kind == 'ecdsa':
